@@ -940,7 +940,7 @@ def h2_cancel_cases(rng, n):
     """a stream whose request body is INCOMPLETE ends - answered on its head by the backend then cancelled by the client
     with RST_STREAM, or cancelled before any answer - and another stream goes to the same backend. HTTP/1.1 backend: the
     second request must reach the backend as a request of its own, never on the connection where the backend still waits
-    for the first body (witness of the finding fixed in h1.rs end_stream, 48550c2); a cancelled chunked upload never gets
+    for the first body (witness of the finding fixed in h1.rs end_stream, 210f399); a cancelled chunked upload never gets
     its last-chunk. h2c backend (/h2/ paths): the cancelled stream is never shown END_STREAM, the backend receives
     RST_STREAM for it (no half-open request left on the shared connection), the next stream is served on it."""
     out = []
@@ -1008,7 +1008,7 @@ def extra_stage(tier, rng, work):
     res = extra_stage_h1(tier, rng, work)
     n = {"quick": 70, "thorough": 1000}.get(tier, 70)
     scns = [h2_scenario(rng, "z%d" % i) for i in range(n)] + [h2_multi(rng, "zm%d" % i) for i in range(n // 2)]
-    # witness of 3321ba0 (corpus/C03/bb/h2bb_cl_trailers.case): Content-Length framing + trailers
+    # witness of 941ee02 (corpus/C03/bb/h2bb_cl_trailers.case): Content-Length framing + trailers
     whs = [(":scheme", "https"), (":path", "/s1"), (":authority", "localhost"), (":method", "POST"), ("content-length", "5"), ("x-a", "1.2.3.4")]
     scns.append(h2_conn("zw1", [dict(hs=whs, es=0, evs=[(0, 1), (0, 3), (0, 1), (2,)], trl=[("x-t", "0")], h2c=False, fr="exact/trailers", path="/s1", good=True)]))
     # witness of the reviewer's h2.rs mutation: a short body closed by TRAILERS+END_STREAM must be refused
@@ -1132,8 +1132,8 @@ LEVEL_NOTE = ("H2->H1 full on the model (head, body framing, trailer section: h2
               "h2_trailers_end_the_request over all byte strings); H1->H1: names/framing fields are sozu's own checks (theorem), the value "
               "alphabet and chunk framing are kawa's (oracle, checked differentially in-process and black-box). Connection reuse: "
               "parked_connection_has_no_unfinished_request mirrors ConnectionH1::end_stream (translator reads the guard; black-box: an upload "
-              "answered on its head and cancelled, then another stream). Defects found and fixed in /repo: 69cd28f e4218a3 dfea9cc 39e8c05 "
-              "8be8458 8e756bb 67251ca 3321ba0 48550c2. Black-box tiers: HTTP/1 frontend (smuggling grammar at several segmentations, scripted "
+              "answered on its head and cancelled, then another stream). Defects found and fixed in /repo: 69cd28f ec3448b a45ed0a c0b6134 "
+              "f7fde4a 40e95ec 0aa2506 941ee02 210f399. Black-box tiers: HTTP/1 frontend (smuggling grammar at several segmentations, scripted "
               "clients: body withheld until the backend's early answer, oracle = the backend reads what a strict reader reads in the client's "
               "bytes) and HTTP/2 frontend over TLS (header-list mutations + DATA/Content-Length schedules, cancelled uploads, HTTP/1.1 and h2c "
               "recording backends), client outcome compared with accept_h2 + data_agree.")
